@@ -165,11 +165,24 @@ pub struct PoolScenario {
     pub pool: PoolCfg,
     pub txs: Vec<TxSpec>,
     pub ops: Vec<POp>,
+    /// C14 twins: the transaction verification cache (shared by pool and block verification) is
+    /// emptied before every task poll and before every chain verify step
+    #[serde(default, skip_serializing_if = "std::ops::Not::not")]
+    pub verify_cache_cold: bool,
+    /// C14 twins: sizes of the store's read caches (headers, cell data, proposals, tx hashes, uncles, extensions)
+    #[serde(default, skip_serializing_if = "Option::is_none")]
+    pub store_caches: Option<[usize; 6]>,
 }
 
 // ------------------------------------------------------------------ generation
 
-pub fn generate(seed: u64, prop: &str) -> PoolScenario {
+pub fn generate(seed: u64, prop_name: &str) -> PoolScenario {
+    // C14 (cache twins) runs the operation mixes of C12 and C13 alternately: transactions verified
+    // in the pool first and in blocks later, on competing branches, at other commit positions
+    let prop = match prop_name {
+        "C14" => if seed % 2 == 0 { "C12" } else { "C13" },
+        p => p,
+    };
     let mut r = Rng::new(seed ^ 0x9001_0000);
     let mut cfg = crate::scen::gen_cfg(&mut r);
     cfg.genesis_cells = (0..r.urange(8, 16)).map(|_| r.range(3_000, 60_000) * SHANNONS).collect();
@@ -557,7 +570,7 @@ pub fn generate(seed: u64, prop: &str) -> PoolScenario {
             }
         }
     }
-    PoolScenario { engine: "simnode".into(), kind: "pool".into(), prop: prop.into(), seed, cfg, pool, txs, ops }
+    PoolScenario { engine: "simnode".into(), kind: "pool".into(), prop: prop_name.into(), seed, cfg, pool, txs, ops, verify_cache_cold: false, store_caches: None }
 }
 
 pub fn gen_cand(r: &mut Rng, ntx: usize) -> Cand {
@@ -686,6 +699,10 @@ pub struct PoolExec {
     /// rest (previous operation was a Quiesce); evaluated at the next Quiesce if nothing else happened
     readd_watch: Option<Vec<usize>>,
     last_op_quiesce: bool,
+    /// C14: every verdict and answer of the run as (label, fingerprint); compared between twins
+    c14: Vec<(String, u64)>,
+    /// C14: number of task polls and verify steps so far (hash keys of their threads)
+    poll_seq: u64,
 }
 
 fn dummy_network(shared: &ckb_shared::Shared, dir: &Path) -> NetworkController {
@@ -715,6 +732,40 @@ fn dummy_network(shared: &ckb_shared::Shared, dir: &Path) -> NetworkController {
 
 fn hex(b: &Byte32) -> String {
     format!("{:#x}", b)
+}
+
+/// polls task i until it finishes (true) or stops at a yield point (false); second value: stuck
+fn poll_loop(tasks: &mut Vec<Task>, pool: &mut SimPool, rt: &ckb_async_runtime::Handle, i: usize) -> (bool, bool) {
+    let waker = Waker::noop();
+    let mut cx = Context::from_waker(waker);
+    let mut spins = 0u64;
+    let mut stuck = false;
+    let done = rt.enter(|| loop {
+        let before = pv::yield_count();
+        match tasks[i].fut.as_mut().poll(&mut cx) {
+            Poll::Ready(()) => break true,
+            Poll::Pending => {
+                if pv::yield_count() > before {
+                    break false;
+                }
+                // the block-assembler loop runs beside the service loop and empties its bounded
+                // channel all the time: a sender blocked on the full channel gets room again
+                // (the messages join the task list in their order; see the drain below)
+                while let Some(fut) = pool.next_block_assembler() {
+                    tasks.push(Task { name: "block_assembler".into(), fut });
+                }
+                // waiting for a helper (script VM on the runtime): spin, do not interleave
+                std::thread::sleep(std::time::Duration::from_micros(30));
+                spins += 1;
+                if spins > 200_000 {
+                    // a task that waits for something no helper will ever deliver: harness error, not a hang
+                    stuck = true;
+                    break true;
+                }
+            }
+        }
+    });
+    (done, stuck)
 }
 
 impl PoolExec {
@@ -760,7 +811,17 @@ impl PoolExec {
             expiry_hours: sc.pool.expiry_hours,
             ..Default::default()
         };
-        let mut node = Node::open_with(dir, w.consensus.clone(), false, None, Some(rt.clone()), Some(tp), Some(ba))?;
+        let store_cfg = sc.store_caches.map(|c| {
+            let mut cfg = ckb_app_config::StoreConfig::default();
+            cfg.header_cache_size = c[0];
+            cfg.cell_data_cache_size = c[1];
+            cfg.block_proposals_cache_size = c[2];
+            cfg.block_tx_hashes_cache_size = c[3];
+            cfg.block_uncles_cache_size = c[4];
+            cfg.block_extensions_cache_size = c[5];
+            cfg
+        });
+        let mut node = Node::open_with(dir, w.consensus.clone(), false, store_cfg, Some(rt.clone()), Some(tp), Some(ba))?;
         let net = dummy_network(&node.shared, dir);
         let pool = node.pack.take_tx_pool_builder().verif_into_sim(net.clone());
         let g0 = w.blocks[0].view.clone();
@@ -794,6 +855,8 @@ impl PoolExec {
             internal_removed: BTreeSet::new(),
             readd_watch: None,
             last_op_quiesce: false,
+            c14: Vec::new(),
+            poll_seq: 0,
         })
     }
 
@@ -929,38 +992,38 @@ impl PoolExec {
         }
     }
 
-    fn poll_task_inner(&mut self, i: usize, allow_yield: bool) -> bool {
-        pv::arm_yield(allow_yield);
-        let waker = Waker::noop();
-        let mut cx = Context::from_waker(waker);
-        let rt = self.rt.clone();
-        let mut spins = 0u64;
-        let mut stuck = false;
-        let done = rt.enter(|| loop {
-            let before = pv::yield_count();
-            match self.tasks[i].fut.as_mut().poll(&mut cx) {
-                Poll::Ready(()) => break true,
-                Poll::Pending => {
-                    if pv::yield_count() > before {
-                        break false;
+    /// cold twin of C14: the verification cache is emptied (between polls nobody holds its lock)
+    fn cool_verify_cache(&mut self) {
+        if self.sc.verify_cache_cold {
+            let cache = self.node.shared.txs_verify_cache();
+            match cache.try_write() {
+                Ok(mut g) => {
+                    if g.len() > 0 {
+                        self.res.faults.inc("verify_cache_cleared");
                     }
-                    // the block-assembler loop runs beside the service loop and empties its bounded
-                    // channel all the time: a sender blocked on the full channel gets room again
-                    // (the messages join the task list in their order; see the drain below)
-                    while let Some(fut) = self.pool.next_block_assembler() {
-                        self.tasks.push(Task { name: "block_assembler".into(), fut });
-                    }
-                    // waiting for a helper (script VM on the runtime): spin, do not interleave
-                    std::thread::sleep(std::time::Duration::from_micros(30));
-                    spins += 1;
-                    if spins > 200_000 {
-                        // a task that waits for something no helper will ever deliver: harness error, not a hang
-                        stuck = true;
-                        break true;
-                    }
+                    g.clear();
                 }
-            }
-        });
+                Err(_) => self.res.probes.inc("verify_cache_busy_not_cleared"),
+            };
+        }
+    }
+
+    fn poll_task_inner(&mut self, i: usize, allow_yield: bool) -> bool {
+        self.cool_verify_cache();
+        pv::arm_yield(allow_yield);
+        let rt = self.rt.clone();
+        let (done, stuck) = if self.sc.prop == "C14" {
+            // cache twins: every poll runs on a thread of its own whose HashMap keys are a function of
+            // the poll's position in the run, so that the iteration order of the maps a task creates
+            // does not depend on how many maps earlier (cache-dependent) work created on this thread
+            self.poll_seq += 1;
+            crate::reset_hash_ctr(self.poll_seq.wrapping_mul(0x1000));
+            let tasks = &mut self.tasks;
+            let pool = &mut self.pool;
+            std::thread::scope(|s| s.spawn(|| poll_loop(tasks, pool, &rt, i)).join()).unwrap_or_else(|e| std::panic::resume_unwind(e))
+        } else {
+            poll_loop(&mut self.tasks, &mut self.pool, &rt, i)
+        };
         if stuck && self.res.harness_error.is_none() {
             self.res.harness_error = Some(format!("task '{}' makes no progress (waits for an event nobody delivers)", self.tasks[i].name));
         }
@@ -1060,6 +1123,11 @@ impl PoolExec {
             }
             if self.node.chain.verify_pending() > 0 {
                 progressed = true;
+                self.cool_verify_cache();
+                if self.sc.prop == "C14" {
+                    self.poll_seq += 1;
+                    crate::reset_hash_ctr(self.poll_seq.wrapping_mul(0x1000));
+                }
                 let chain = &mut self.node.chain;
                 let pool = &mut self.pool;
                 let tasks = &mut self.tasks;
@@ -1152,6 +1220,35 @@ impl PoolExec {
             self.res.harness_error = None;
         }
         self.res.probes.add("stale_templates_not_verified", self.stale_templates);
+        if self.sc.prop == "C14" {
+            let mut out = std::mem::take(&mut self.c14);
+            for (k, (t, r)) in self.results.lock().unwrap().iter().enumerate() {
+                let s = match r {
+                    Ok(c) => format!("ok:{c}"),
+                    Err(e) => format!("err:{e}"),
+                };
+                out.push((format!("submission[{k}]:tx{t}"), simcore::fp_bytes(s.as_bytes())));
+            }
+            for (k, (h, v)) in self.node.verdicts.lock().unwrap().iter().enumerate() {
+                let s = match v {
+                    Ok(b) => format!("ok:{b}"),
+                    Err(e) => format!("err:{}", e.split('(').next().unwrap_or("")),
+                };
+                out.push((format!("block_verdict[{k}]:{}", &hex(h)[..10]), simcore::fp_bytes(s.as_bytes())));
+            }
+            // recorded fees and cycles of every main-chain block
+            let snap = self.node.shared.cloned_snapshot();
+            let store = self.node.shared.store();
+            out.push(("tip".into(), simcore::fp_bytes(snap.tip_hash().as_slice())));
+            for n in 0..=snap.tip_number() {
+                if let Some(h) = store.get_block_hash(n) {
+                    let s = store.get_block_ext(&h).map(|e| format!("{:?}:{:?}:{:?}:{:#x}", e.verified, e.txs_fees.iter().map(|c| c.as_u64()).collect::<Vec<_>>(), e.cycles, e.total_difficulty)).unwrap_or_default();
+                    out.push((format!("ext#{n}"), simcore::fp_bytes(s.as_bytes())));
+                    out.push((format!("block#{n}"), simcore::fp_bytes(h.as_slice())));
+                }
+            }
+            self.res.extra = Some(serde_json::json!({ "c14": out }));
+        }
         self.res.log_hash = self.log.finish();
         self.res.interleaving = self.il.finish();
         self.res.sim_ms = self.now - self.sc.cfg.genesis_ts;
@@ -1350,7 +1447,18 @@ impl PoolExec {
             }
         };
         let block: packed::Block = tpl.into();
-        let view = block.as_advanced_builder().nonce(self.res.steps as u128).build();
+        let mut view = block.as_advanced_builder().nonce(self.res.steps as u128).build();
+        if self.sc.prop == "C14" {
+            // the proposal list of a template comes out of a HashSet: its order follows the process's
+            // hash seeds and the number of maps created before, which differs between cache twins for
+            // reasons that are not answers. The miner may order proposals freely: sorted here.
+            let mut ps: Vec<packed::ProposalShortId> = view.data().proposals().into_iter().collect();
+            ps.sort_by(|a, b| a.as_slice().cmp(b.as_slice()));
+            // the same holds for the order of uncles of one height (candidates are kept in a HashSet)
+            let mut us: Vec<ckb_types::core::UncleBlockView> = view.uncles().into_iter().collect();
+            us.sort_by(|a, b| a.hash().as_slice().cmp(b.hash().as_slice()));
+            view = view.as_advanced_builder().set_proposals(ps).set_uncles(us).build();
+        }
         let snap = self.node.shared.cloned_snapshot();
         let on_tip = view.parent_hash() == snap.tip_hash();
         // the block's timestamp must not be in the node's future
@@ -1374,6 +1482,16 @@ impl PoolExec {
         let model = self.w.adopt(&view);
         let verdict = self.deliver(&view);
         let ntx = view.transactions().len() - 1;
+        if self.sc.prop == "C14" {
+            let k = self.c14.len();
+            self.c14.push((format!("template[{k}]:n{}", view.number()), simcore::fp_bytes(view.data().as_slice())));
+            let s = match &verdict {
+                Some(Ok(b)) => format!("ok:{b}"),
+                Some(Err(e)) => format!("err:{}", e.split('(').next().unwrap_or("")),
+                None => "none".into(),
+            };
+            self.c14.push((format!("template_verdict[{k}]:n{}", view.number()), simcore::fp_bytes(s.as_bytes())));
+        }
         self.ev(&format!("mine n={} txs={} proposals={} uncles={} on_tip={} verdict={:?} model={:?}", view.number(), ntx, view.data().proposals().len(), view.data().uncles().len(), on_tip, verdict, model.as_ref().map(|_| ())));
         if ntx > 0 {
             self.res.probes.inc("template_commits_txs");
@@ -2214,6 +2332,18 @@ impl PoolExec {
         if d.snapshot_tip != snap.tip_hash() {
             self.viol("C12", "pool_snapshot_lags_after_quiesce", format!("{why}: pool resolves against {} but tip is {}", hex(&d.snapshot_tip), hex(&snap.tip_hash())));
             return;
+        }
+        if self.sc.prop == "C14" {
+            // pool contents with everything the pool recorded per entry (status, cycles, fee, aggregates)
+            let mut rows: Vec<String> = d
+                .entries
+                .iter()
+                .map(|e| format!("{}:{}:{}:{}:{}:{:?}:{:?}", hex(&e.tx.witness_hash()), e.status, e.cycles, e.size, e.fee.as_u64(), (e.ancestors.0, e.ancestors.1, e.ancestors.2, e.ancestors.3.as_u64()), (e.descendants.0, e.descendants.1, e.descendants.2, e.descendants.3.as_u64())))
+                .collect();
+            rows.sort();
+            let k = self.c14.len();
+            self.c14.push((format!("pool_at_rest[{k}]:{}entries", rows.len()), simcore::fp_bytes(rows.join("|").as_bytes())));
+            self.c14.push((format!("tip_at_rest[{k}]"), simcore::fp_bytes(snap.tip_hash().as_slice())));
         }
         let Some(ti) = self.w.by_hash.get(&snap.tip_hash()).cloned() else { return };
         let st = self.w.st(ti).clone();
